@@ -202,7 +202,7 @@ static void tiny_pivots(unsigned long long& unit)
 	for(int n = 2; n <= 6; n++)
 		for(int variant = 0; variant < 4; variant++)
 			for(int pos = 0; pos < n; pos++)
-				for(int s : {27, 40, 50, 0})
+				for(int s : {10, 14, 18, 22, 27, 40, 50, 0})
 				{
 					if(!mc::mine(unit++)) continue;
 					Rows a(n, std::vector<double>(n));
@@ -271,6 +271,17 @@ static void structured(unsigned long long& unit)
 					check_matrix(g, "graded_scaling");
 				}
 		}
+	// the same well-conditioned matrices at very small and very large absolute scale (the inverse is scale covariant)
+	for(int n = 1; n <= 5; n++)
+		for(int pat = 0; pat < 4; pat++)
+			for(double sc : {1e-13, 1e-20, 1e-40, 1e13, 1e40})
+			{
+				if(!mc::mine(unit++)) continue;
+				Rows g(n, std::vector<double>(n));
+				for(int i = 0; i < n; i++)
+					for(int j = 0; j < n; j++) g[i][j] = sc * ((i == j ? 5.0 : 0.0) + (double)(int)(2 * v[(i * 4 + j * 7 + pat) % 9]));
+				check_matrix(g, "global_scale");
+			}
 	// multiplicativity on integer matrices (exact)
 	for(int n = 2; n <= 4; n++)
 		for(int pa = 0; pa < 9; pa++)
